@@ -20,7 +20,33 @@ package goast
 //@   loop 0
 //@     invariant forall i int {f.Imports[i]} :: 0 <= i && i < #k ==> unquoted(f.Imports[i].Path.Value) != path
 
-// Rewrites every token.Pos below n with the given function (reflection over the tree; summarised).
+// Every token.Pos below n is rewritten with the given function - except absent (zero) positions: whether a
+// position is present is syntax (a type alias is a type declaration with an `=` position), so absent stays
+// absent (C05, C13). Object links are not followed (cycles), a File is walked through the fields that own
+// their nodes. No value of the tree can make the walk panic (C08): every reflect call is guarded by the kind;
+// that a go/ast tree holds no map below the links the walk follows is assumed (the `unfold` of TransformPos).
 //@ func TransformPos(n, transform)
-//@   trusted applies the position transformation to every token.Pos field below the node by reflection: summarised
+//@   requires transform != nil
+//@   unfold posWalkEnv()
+//@   unfold n != nil ==> noMaps(rvOf(n))
 //@   assigns group(ast)
+
+//@ func funcval:#transformFn(pos) (p)
+//@   assigns nothing
+
+//@ func transformPos(v, transformFn)
+//@   requires transformFn != nil
+//@   requires typing: posWalkEnv()
+//@   unfold posWalkEnv() == posWalkFacts()
+//@   requires typing: kind(v) != 0 ==> noMaps(v)
+//@   decreases ite(kind(v) == 0, 0, rvSize(v) + 1)
+//@   assigns group(ast)
+//@   at call (reflect.Value).SetInt assert [C05,C13] an-absent-position-stays-absent: pos != 0
+//@   at call (reflect.Value).SetInt assert [C13,C19] a-present-position-becomes-what-the-function-makes-of-it: arg0 == v && arg1 == ret("funcval:goast.transformPos#transformFn", 0)
+//@   at call funcval:goast.transformPos#transformFn assert [C13,C19] the-function-is-given-the-position-as-it-stands: arg0 == rvInt(v)
+//@   loop 0
+//@     invariant 0 <= i && i <= rlen(v)
+//@     decreases rlen(v) - i
+//@   loop 1
+//@     invariant 0 <= i && i <= numfield(rtype(v))
+//@     decreases numfield(rtype(v)) - i
